@@ -256,7 +256,12 @@ pub fn parse_complete<F: LemireFloat, const FORMAT: u128>(
         {
             return Err(Error::Empty(byte.cursor()));
         } else {
-            return Ok(F::ZERO);
+            // A lone sign is a signed zero, as for `-.` or `-e5`.
+            return Ok(if is_negative {
+                -F::ZERO
+            } else {
+                F::ZERO
+            });
         }
     }
 
@@ -307,7 +312,12 @@ pub fn fast_path_complete<F: LemireFloat, const FORMAT: u128>(
         {
             return Err(Error::Empty(byte.cursor()));
         } else {
-            return Ok(F::ZERO);
+            // A lone sign is a signed zero, as for `-.` or `-e5`.
+            return Ok(if is_negative {
+                -F::ZERO
+            } else {
+                F::ZERO
+            });
         }
     }
 
@@ -332,7 +342,13 @@ pub fn parse_partial<F: LemireFloat, const FORMAT: u128>(
         {
             return Err(Error::Empty(byte.cursor()));
         } else {
-            return Ok((F::ZERO, byte.cursor()));
+            // A lone sign is a signed zero, as for `-.` or `-e5`.
+            let zero = if is_negative {
+                -F::ZERO
+            } else {
+                F::ZERO
+            };
+            return Ok((zero, byte.cursor()));
         }
     }
 
@@ -389,7 +405,13 @@ pub fn fast_path_partial<F: LemireFloat, const FORMAT: u128>(
         {
             return Err(Error::Empty(byte.cursor()));
         } else {
-            return Ok((F::ZERO, byte.cursor()));
+            // A lone sign is a signed zero, as for `-.` or `-e5`.
+            let zero = if is_negative {
+                -F::ZERO
+            } else {
+                F::ZERO
+            };
+            return Ok((zero, byte.cursor()));
         }
     }
 
